@@ -33,6 +33,7 @@ CAT = {
     "K": ((0, 0, 0, 1, 0), Fr(1), 0), "kelvin": ((0, 0, 0, 1, 0), Fr(1), 0), "degC": ((0, 0, 0, 1, 0), Fr(1), Fr(27315, 100)), "degree_Celsius": ((0, 0, 0, 1, 0), Fr(1), Fr(27315, 100)), "degF": ((0, 0, 0, 1, 0), Fr(5, 9), Fr(27315, 100) - Fr(5 * 32, 9)),
     "%": ((0, 0, 0, 0, 0), Fr(1, 100), 0), "percent": ((0, 0, 0, 0, 0), Fr(1, 100), 0), "1": ((0, 0, 0, 0, 0), Fr(1), 0), "": ((0, 0, 0, 0, 0), Fr(1), 0), "dimensionless": ((0, 0, 0, 0, 0), Fr(1), 0), "ppm": ((0, 0, 0, 0, 0), Fr(1, 10**6), 0),
     "rad": ((0, 0, 0, 0, 0), Fr(1), 0), "degree": ((0, 0, 0, 0, 0), PI180, 0), "degrees_north": ((0, 0, 0, 0, 0), PI180, 0), "degrees_east": ((0, 0, 0, 0, 0), PI180, 0),
+    "L/m2": ((1, 0, 0, 0, 0), Fr(1, 1000), 0), "N/m2": ((-1, 1, -2, 0, 0), Fr(1), 0), "J/s": ((2, 1, -3, 0, 0), Fr(1), 0),  # equivalent to mm / Pa / W, spelled through other units
     "mol": ((0, 0, 0, 0, 1), Fr(1), 0), "umol/m2/s": ((-2, 0, -1, 0, 1), Fr(1, 10**6), 0),
 }
 NAMES = list(CAT)
@@ -143,8 +144,13 @@ def judge_pair(a, b, regime):
             pmk = q_prepare_masked(a, b, v)
             if isinstance(pmk[0], str) or not close(pmk[0], want):
                 bad.append(("prepare_value_under_fixed_mask", f"{v} {a} -> {b}: got {pmk}, reference {want}"))
-            if eq and not isinstance(r, tuple) and r != v:
-                bad.append(("equivalent_relabel_changed_numbers", f"{v} {a} -> {b}: {r!r}"))
+            if eq:  # relabelling is what to_units does when asked to look for equivalence (as links and prepare ask it to); without that flag it converts arithmetically
+                try:
+                    rr = float(T.to_units(U.Quantity(np.array([v]), a), b, check_equivalent=True).magnitude[0])
+                except Exception as e:  # noqa
+                    rr = ("EXC", type(e).__name__)
+                if rr != v:
+                    bad.append(("equivalent_relabel_changed_numbers", f"{v} {a} -> {b}: {rr!r}"))
         else:
             if not isinstance(r, tuple):
                 bad.append(("to_units_accepts_incompatible", f"{v} {a} -> {b} = {r}"))
@@ -184,7 +190,9 @@ def judge_link(a, b):
 
 
 SUB = ["m", "km", "s", "degC", "K", "%"]
+SUB2 = ["mm", "L/m2", "Hz", "1/s"]  # pairs that are equivalent without being the same unit object, and a conversion between them
 FUNCS = ("c", "e", "t")
+FUNCS2 = ("c", "e", "t", "p")
 
 
 def answer(q):
@@ -193,6 +201,9 @@ def answer(q):
         return q_compat(a, b)
     if f == "e":
         return q_equiv(a, b)
+    if f == "p":
+        r = q_prepare(a, b, 1.0)
+        return ("EXC", r[1]) if r[0] == "EXC" else round(r[0], 9)
     r = q_convert(a, b, 1.0)
     return r if isinstance(r, tuple) else round(r, 9)
 
@@ -231,7 +242,7 @@ def run_case(case):
                     res["violations"].append(viol(dict(kind="units", clause=clause), f"link ({a!r} -> {b!r}): {clause}: {detail}", dict(kind="pairs", regime=regime, pairs=[[a, b]])))
         res["sample"] = dict(regime=regime, pair=case["pairs"][0])
     else:
-        qs = [(f, a, b) for f in FUNCS for a in SUB for b in SUB]
+        qs = [(f, a, b) for f in FUNCS for a in SUB for b in SUB] if not case.get("sub2") else [(f, a, b) for f in FUNCS2 for a in SUB2 for b in SUB2]
         for first in case["firsts"]:
             rest = [()] + [(q,) for q in qs] + ([(q1, q2) for q1 in qs for q2 in qs] if case["depth"] >= 3 else [])
             for tail in rest:
@@ -249,7 +260,7 @@ def run_case(case):
                     got, want = answer(q), ref_answer(q)
                     ok = (isinstance(got, tuple) and want == "EXC") or got == want
                     if not ok:
-                        res["violations"].append(viol(dict(kind="units_history", func=q[0]), f"query {q} answered {got} (reference {want}) after {seq[:i]}", dict(kind="seqs", depth=case["depth"], firsts=[list(first)], only=[list(x) for x in seq])))
+                        res["violations"].append(viol(dict(kind="units_history", func=q[0]), f"query {q} answered {got} (reference {want}) after {seq[:i]}", dict(kind="seqs", depth=case["depth"], firsts=[list(first)], only=[list(x) for x in seq], sub2=case.get("sub2"))))
                         break
         res["sample"] = dict(kind="sequence", first=case["firsts"][0], depth=case["depth"])
     return res
@@ -286,6 +297,8 @@ def run(tier, seed, agg):
     sub = qs if tier == "thorough" else [q for q in qs if q[1] != q[2]]
     for q in sub:
         cases.append(dict(kind="seqs", depth=depth, firsts=[q]))
+    for q in [[f, a, b] for f in FUNCS2 for a in SUB2 for b in SUB2]:
+        cases.append(dict(kind="seqs", depth=depth, firsts=[q], sub2=True))
     # histories that start with a query outside the catalogue which the unit library refuses although the dimensions agree
     # (a temperature against a temperature difference): only the later answers are judged
     for f in FUNCS:
@@ -298,7 +311,7 @@ def run(tier, seed, agg):
         level="exploration",
         rule=f"all {len(NAMES)}^2 ordered unit pairs of a hand-written catalogue (exponent vector, exact factor, offset; no pint in the reference) under three memo regimes (cold, after the reversed pair, warm after a full sweep): "
         "compatible_units, equivalent_units, to_units and prepare for values {0,1,-2.5}, plus a real Output->Input link for every pair; and ALL query sequences of length <=3 over a 6-unit sub-catalogue x {compatible, equivalent, to_units} "
-        "from a cold memo. non-trivial = pairs of different spellings / sequences longer than one query",
+        "from a cold memo, and over {mm, L/m2, Hz, 1/s} (equivalent units spelled differently) x {compatible, equivalent, to_units, prepare}. non-trivial = pairs of different spellings / sequences longer than one query",
         bound=dict(catalogue=len(NAMES), sequence_len=3, sub_catalogue=SUB),
         assumptions=["relative tolerance 1e-9 on converted numbers; equivalent units must relabel bit-identically", "angles are dimensionless (SI)", "the bare helper to_units may raise any exception for incompatible units; prepare and links must raise FinamDataError/FinamMetaDataError"],
     )
